@@ -61,11 +61,21 @@
 extern crate libc;
 
 mod half_lock;
+#[cfg(sighook_verif)]
+#[path = "/verif/shim/registry_api.rs"]
+pub mod verif_api;
 
+#[cfg(not(sighook_verif))]
 use std::collections::hash_map::Entry;
+#[cfg(not(sighook_verif))]
 use std::collections::{BTreeMap, HashMap};
+#[cfg(sighook_verif)]
+use libc::vshim::maps::{BTreeMap, Entry, HashMap};
 use std::io::Error;
+#[cfg(not(sighook_verif))]
 use std::mem;
+#[cfg(sighook_verif)]
+use libc::vshim::mem;
 #[cfg(not(windows))]
 use std::ptr;
 // Once::new is now a const-fn. But it is not stable in all the rustc versions we want to support
